@@ -77,7 +77,7 @@ func init() {
 		Rule: "one world per seed index: 2-4 simulated tasks, each a program of 3-10 calls (j2t/t2j Do and DoInto, GetByPath, Children, PathNode Load+Marshal, MarshalTo, descriptor lookups, Interface; 1 in 5 fed a truncated input so that it fails mid-way) on ONE shared descriptor, shared converter values and shared inputs placed in read-only pages. Phase 1: every call alone with pristine pools; phase 2a: the same calls back to back with dirty pools; phase 2b: the programs interleaved by the tape-driven scheduler at function-entry/pool yields with pool objects recycled across tasks (poisoned on Put); phase 3: churn calls recycling every pool, then every retained result is re-checked, inputs are checksummed and the descriptor graph deep-hashed. The race build runs the same worlds under ThreadSanitizer with a hand-off that is invisible to it. distinct_nontrivial = distinct (task count x switch rate x pool-switching x knob x flavour) signatures among worlds with at least one task switch",
 		Stub: append([]string{"goroutine scheduling -> exactly one runnable task, next task chosen by the tape at yields (blind hand-off, GOMAXPROCS=1)"}, stubsCommon...)})
 	addCfg(&propCfg{ID: "C06", Level: "fault_enumeration", Quick: 30000, Thorough: 120000,
-		Rule: "one world per seed index: a well-formed Thrift message + its JSON rendering generated from the tape, then 2-7 stored-byte faults placed through the reference encoder's structure map (truncation at any offset; count/length fields set to 2^31-1, 2^32-1, 2^31, off-by-small; type-byte substitution incl. STOP bytes; nesting to 70/1100/5000/66000 levels; splice; random multi-byte; second-order mutation of a damaged message; JSON: truncation, bad escapes, lone surrogates, unbalanced brackets, 1 MiB of '[') each fed to a tape-chosen subset of entry points (Node.Children, PathNode.Load+Marshal, Value.GetByPath, Node.Interface, Value.Foreach, Value.MarshalTo, t2j, j2t Do/DoInto, SkipGo, SkipNative, ReadAny, ReadAnyWithDesc, UnwrapBinaryMessage) with the input flush against a PROT_NONE page at its end or start or in read-only pages, under recycled pools and all SIMD flavours. Oracle: no panic / fatal / signal, logical-step budget 400*len+20000 yields, allocation budget 256*len+1MiB (GC off, single thread: exact). One world in three is a Protobuf world instead (prop_c06p.go): a reference-encoded message of a generated proto3 schema damaged at its structural marks (truncation; length prefixes and varints to 2^31-1 / 2^32-1 / 2^63 / 2^64-1 / off-by-small; tag substitution: every wire type incl. groups and 6/7, field number 0 and 2^29-1; over-long and unterminated varints; 70-20000 nested levels; group tags; random bytes; second-order) and damaged JSON, fed to p2j.Do, j2p.Do/DoInto, proto/generic Value.GetByPath / Interface / Fields / GetMany / MarshalTo, Node.Children, PathNode.Load+Marshal, proto/binary ReadAnyWithDesc and Skip, protowire Consume*; allocation budget factor 1024 for tree-building entry points, plus the schema-fixed cost of requires-bitmaps and written defaults. In the thorough tier every Thrift world additionally sweeps ITS message exhaustively: every truncation offset and every structural mark x every boundary value (counts/lengths: 8 values + off-by-1/2; type bytes: 22 values; field ids: 4 values) through Children, t2j, SkipGo, SkipNative and MarshalTo with the input flush against an unmapped page. distinct_nontrivial = distinct sets of (fault kind > entry point) pairs executed in a world",
+		Rule: "one world per seed index: a well-formed Thrift message + its JSON rendering generated from the tape, then 2-7 stored-byte faults placed through the reference encoder's structure map (truncation at any offset; count/length fields set to 2^31-1, 2^32-1, 2^31, off-by-small; type-byte substitution incl. STOP bytes; nesting to 70/1100/5000/66000 levels; splice; random multi-byte; second-order mutation of a damaged message; JSON: truncation, bad escapes, lone surrogates, unbalanced brackets, 1 MiB of '[') each fed to a tape-chosen subset of entry points (Node.Children, PathNode.Load+Marshal, Value.GetByPath, Node.Interface, Value.Foreach, Value.MarshalTo, t2j, j2t Do/DoInto, SkipGo, SkipNative, ReadAny, ReadAnyWithDesc, UnwrapBinaryMessage) with the input flush against a PROT_NONE page at its end or start or in read-only pages, under recycled pools and all SIMD flavours. Oracle: no panic / fatal / signal, logical-step budget 400*len+20000 yields, allocation budget 256*len+1MiB (GC off, single thread: exact). One world in three is a Protobuf world instead (prop_c06p.go): a reference-encoded message of a generated proto3 schema damaged at its structural marks (truncation; length prefixes and varints to 2^31-1 / 2^32-1 / 2^63 / 2^64-1 / off-by-small; tag substitution: every wire type incl. groups and 6/7, field number 0 and 2^29-1; over-long and unterminated varints; 70-20000 nested levels; group tags; random bytes; second-order) and damaged JSON, fed to p2j.Do, j2p.Do/DoInto, proto/generic Value.GetByPath / Interface / Fields / GetMany / MarshalTo, Node.Children, PathNode.Load+Marshal, proto/binary ReadAnyWithDesc and Skip, protowire Consume*; allocation budget factor 1024 for tree-building entry points, plus the schema-fixed cost of requires-bitmaps and written defaults. In the thorough tier every Protobuf world with a message of at most 300 bytes also sweeps it exhaustively (every truncation offset; every tag / length / varint mark x 11 boundary values, all 8 wire types, field numbers 0 / 2^29-1 / 2^32-1, an over-long varint) through p2j, Children, Interface, MarshalTo and ReadAnyWithDesc, and every Thrift world additionally sweeps ITS message exhaustively: every truncation offset and every structural mark x every boundary value (counts/lengths: 8 values + off-by-1/2; type bytes: 22 values; field ids: 4 values) through Children, t2j, SkipGo, SkipNative and MarshalTo with the input flush against an unmapped page. distinct_nontrivial = distinct sets of (fault kind > entry point) pairs executed in a world",
 	})
 	addCfg(&propCfg{ID: "C03", Level: "exploration", Quick: 30000, Thorough: 2000000,
 		Rule: "one world per seed index: IDL + 1-4 conforming messages (every int boundary, float classes incl. subnormal/-0 and, in 1/6 of the messages, NaN/+-Inf; strings with escape-relevant code points and lengths around 15-17/31-33/4095-4097; int- and string-keyed maps; unknown fields) encoded by the harness encoder; each message converted under 2-4 environments (Do / DoInto with capacity classes incl. 2*len(src)+delta and expected-k, prefix, canary / guard page; conv.DefaultBufferSize 1/16/4096/65536; recycled poisoned pools; a failing conversion right before; GC+clobber; SIMD flavour; options Int642String, ByteAsUint8, NoBase64Binary, DisallowUnknownField, UseNativeSkip, EnableValueMapping). Oracle: error, or output parses with encoding/json (UseNumber, strict) and denotes exactly the model; identical across environments. distinct_nontrivial = distinct (option set x buffer size x capacity modes x flavour) signatures"})
